@@ -670,13 +670,14 @@ static void step(int id, int op)
     /* ---------------- priority queue (C12) */
     case OP_QPUT: {
         if (pq_n >= 8) break;
-        int k = pq_n;
+        int k = pq_n++;             /* the slot is reserved now: several putters can be blocked at the same time */
+        pq[k].live = 0;
         int64_t pr = sym_i64("qprio");
         uint64_t h = 0;
         P[id].waiting = W_QPUT; P[id].wait_since = now; P[id].wait_prio = P[id].prio;
         int64_t r = cmb_priorityqueue_put(PQ, (void *)&otags[k], pr, &h);
         if (r == CMB_PROCESS_SUCCESS) {
-            pq[k].tag = k; pq[k].prio = pr; pq[k].handle = h; pq[k].live = 1; pq[k].seq = pq_seq++; pq_n++;
+            pq[k].tag = k; pq[k].prio = pr; pq[k].handle = h; pq[k].live = 1; pq[k].seq = pq_seq++;
             uint64_t nl = 0; for (int m = 0; m < pq_n; m++) nl += pq[m].live;
         } else account_signal(id, r, "priorityqueue put");
         after_block(id);
@@ -713,7 +714,7 @@ static void step(int id, int op)
         }
         /* position query agrees with the delivery order */
         for (int k = 0; k < pq_n; k++) {
-            if (!pq[k].live) { sym_assert(cmb_priorityqueue_position(PQ, pq[k].handle) == 0, "position of a delivered/cancelled handle is 0"); continue; }
+            if (!pq[k].live) { if (pq[k].handle != 0) sym_assert(cmb_priorityqueue_position(PQ, pq[k].handle) == 0, "position of a delivered/cancelled handle is 0"); continue; }
             uint64_t ahead = 0;
             for (int q = 0; q < pq_n; q++) if (q != k && pq[q].live && (pq[q].prio > pq[k].prio || (pq[q].prio == pq[k].prio && pq[q].seq < pq[k].seq))) ahead++;
             sym_assert(cmb_priorityqueue_position(PQ, pq[k].handle) == ahead + 1, "position query equals the rank in delivery order");
@@ -768,6 +769,27 @@ static void step(int id, int op)
     default:
         break;
     }
+}
+
+/* C08 at every instant boundary: which suspended processes could be served by what is available right now */
+static unsigned stuck_mask(void)
+{
+    unsigned m = 0;
+    for (int i = 0; i < NPROC; i++) {
+        if (!P[i].started || P[i].finished) continue;
+        switch (P[i].waiting) {
+        case W_ACQ:  if (owner < 0) m |= 1u; break;
+        case W_PACQ: if (cmb_resourcepool_available(PL) != 0) m |= 2u; break;
+        case W_BPUT: if (cmb_buffer_space(B) != 0) m |= 4u; break;
+        case W_BGET: if (cmb_buffer_level(B) != 0) m |= 8u; break;
+        case W_OPUT: if (cmb_objectqueue_space(OQ) != 0) m |= 16u; break;
+        case W_OGET: if (cmb_objectqueue_length(OQ) != 0) m |= 32u; break;
+        case W_QPUT: if (cmb_priorityqueue_space(PQ) != 0) m |= 64u; break;
+        case W_QGET: if (cmb_priorityqueue_length(PQ) != 0) m |= 128u; break;
+        default: break;
+        }
+    }
+    return m;
 }
 
 static void *body(struct cmb_process *me, void *ctx)
@@ -833,10 +855,14 @@ void h_sim(void)
     }
     uint64_t guard = 0;
     double last = cmb_time();
+    unsigned stuck = 0;
     while (cmb_event_execute_next()) {
         sym_assert(cmb_time() >= last, "clock never decreases");
+        /* the previous instant is over: whatever was available at its end must have been handed to whoever waited for it */
+        if (cmb_time() > last) sym_assert(stuck == 0, "no process is still blocked at the end of an instant in which what it waits for is available");
         last = cmb_time();
         invariants();
+        stuck = stuck_mask();
         sym_assume(++guard < 200);
     }
     /* ---- quiescence: nobody may be left suspended whose cause has happened / whose demand can be met */
